@@ -178,4 +178,67 @@ theorem huffLoop_total (ll dl : Array Nat) (hll : ll.size ≤ 288) (hdl : dl.siz
                 omega)
             exact hpost.transport m1 m2 m3 m4 m5 m6 (by show c.bits.pos ≤ c2.bits.pos; omega)
 
+/-- **Every checkpoint the symbol loop records lies at or behind `p0`** when the loop starts there (or
+later) and the incoming checkpoint does: the cursor only moves forward. -/
+theorem huffLoop_cpge (ll dl : Array Nat) (hll : ll.size ≤ 288) (hdl : dl.size ≤ 32) (p0 : Nat) :
+    ∀ (fuel : Nat) (c : Cutter) (cp : Option (Nat × Nat)) (d0 : Int),
+    c.OK → c.lHuff.Good ll → c.dHuff.Good dl → p0 ≤ c.bits.pos →
+    (∀ i n, cp = some (i, n) → p0 ≤ 8 * i - n) →
+    ∀ i n, (Cutter.huffLoop fuel c cp d0).2.1 = some (i, n) → p0 ≤ 8 * i - n := by
+  intro fuel
+  induction fuel with
+  | zero =>
+    intro c cp d0 _ _ _ _ hcp i n h
+    simp only [Cutter.huffLoop] at h
+    exact hcp i n h
+  | succ fuel ih =>
+    intro c cp d0 hc hgl hgd hp0 hcp
+    rw [Cutter.huffLoop]
+    obtain ⟨s, b', e, y, p⟩ := hgl.decode (offAt16_le ll 288 hll) c.bits hc.inv
+    simp only [e]
+    by_cases hs : s < 0
+    · simp only [hs, if_true]
+      exact hcp
+    · simp only [hs, if_false]
+      obtain ⟨hcoded, i1, p1⟩ := p (by omega)
+      have hc1 : ({ c with bits := b' } : Cutter).OK := ⟨i1, by simp only [y]; exact hc.max, hc.l, hc.d⟩
+      have hst := huffStep_total { c with bits := b' } hc1 ll dl hgd hdl s hcoded hll d0
+      generalize hr : ({ c with bits := b' } : Cutter).huffStep s d0 = r at hst
+      obtain ⟨c2, d2, o⟩ := r
+      simp only [] at hst
+      obtain ⟨q1, q2, q3, q4⟩ := hst
+      have m1 : c2.maxEncodedLen = c.maxEncodedLen := by rw [q1]
+      have m4 : c2.lHuff = c.lHuff := by rw [q1]
+      have m5 : c2.dHuff = c.dHuff := by rw [q1]
+      have m6 : c2.bits.bytes = c.bits.bytes := by
+        have := (huffStep_spec { c with bits := b' } s d0).2.2.2.1
+        rw [hr] at this
+        exact this.trans y
+      cases o with
+      | some r =>
+        simp only []
+        exact hcp
+      | none =>
+        simp only []
+        obtain ⟨i2, p2⟩ := q4 (Or.inl rfl)
+        have p2 : b'.pos ≤ c2.bits.pos := p2
+        by_cases hd2 : d2 < 0
+        · simp only [hd2, if_true]
+          exact hcp
+        · simp only [hd2, if_false]
+          by_cases hbud : 8 * c2.bits.index - c2.bits.nBits + c2.endCodeNBits > 8 * c2.maxEncodedLen
+          · simp only [hbud, if_true]
+            exact hcp
+          · simp only [hbud, if_false]
+            have hc2 : ({ c2 with decodedLen := d2 } : Cutter).OK :=
+              ⟨i2, by simp only [m1, m6]; exact hc.max, by simp only [m4]; exact hc.l, by simp only [m5]; exact hc.d⟩
+            have hp2 : p0 ≤ c2.bits.pos := by omega
+            exact ih { c2 with decodedLen := d2 } (some (c2.bits.index, c2.bits.nBits)) d2 hc2
+              (by simp only [m4]; exact hgl) (by simp only [m5]; exact hgd) hp2
+              (by
+                intro i n hin
+                simp only [Option.some.injEq, Prod.mk.injEq] at hin
+                obtain ⟨rfl, rfl⟩ := hin
+                exact hp2)
+
 end WuffsVerif.Flate.Cut
